@@ -272,10 +272,33 @@ def strip_lean_comments(s):
     return _COMMENT_LINE.sub("", s)
 
 
-def lean_grep_forbidden():
-    """Return list of (file, token) hits outside comments in the whole Lean library."""
+def lean_import_closure(roots):
+    """Files (paths) reachable through `import Mustache.*` from the given module names / Driver."""
+    seen, todo = {}, list(roots)
+    while todo:
+        m = todo.pop()
+        if m in seen:
+            continue
+        f = os.path.join(LEAN, *m.split(".")) + ".lean"
+        if not os.path.exists(f):
+            continue
+        seen[m] = f
+        for line in open(f):
+            mm = re.match(r"\s*(?:public\s+)?import\s+((?:Mustache|Driver)[\w.]*)", line)
+            if mm:
+                todo.append(mm.group(1))
+    return sorted(seen.values())
+
+
+def lean_grep_forbidden(prop=None):
+    """Return list of (file, token) hits outside comments: in everything the property's theorem file and the
+    driver import (the whole library when no property is given)."""
     hits = []
-    for f in _files_under(os.path.join(LEAN, "Mustache"), (".lean",)) + [os.path.join(LEAN, "Driver.lean")]:
+    if prop is None:
+        files = _files_under(os.path.join(LEAN, "Mustache"), (".lean",)) + [os.path.join(LEAN, "Driver.lean")]
+    else:
+        files = lean_import_closure(["Mustache.Props." + prop, "Driver"])
+    for f in files:
         s = strip_lean_comments(open(f).read())
         for m in FORBIDDEN.finditer(s):
             hits.append((os.path.relpath(f, LEAN), m.group(0).strip()))
@@ -315,7 +338,7 @@ def lean_audit(prop, leanchecker=False):
         res["ok"] = False
         res["problems"].append("lake build %s failed:\n%s" % (mod, out[-3000:]))
         return res
-    hits = lean_grep_forbidden()
+    hits = lean_grep_forbidden(prop)
     if hits:
         res["ok"] = False
         res["problems"].append("forbidden tokens: %r" % (hits[:10],))
